@@ -277,7 +277,7 @@ FACETS.append(Facet('torch/map-histories', f_history, strategy=lambda t: st_hist
 
 
 from checks import large as _large
-FACETS.append(Facet('np/large-N', _large.f_algebra_large, strategy=lambda t: _large.st_algebra('np', ['compose', 'inverse'], sizes=(12, 31, 32, 33, 64, 65)), examples={'quick': 40, 'thorough': 2000}))
+FACETS.append(Facet('np/large-N', _large.f_algebra_large, strategy=lambda t: _large.st_algebra('np', ['compose', 'inverse', 'inverse'], sizes=(12, 21, 24, 31, 32, 33, 64, 65)), examples={'quick': 60, 'thorough': 2000}))
 FACETS.append(Facet('torch/large-N', _large.f_algebra_large, strategy=lambda t: _large.st_algebra('torch', ['compose', 'inverse'], sizes=(12, 31, 33)), examples={'quick': 8, 'thorough': 300}, backend='torch'))
 
 
